@@ -36,7 +36,16 @@ def run_vx(files):
     return json.loads(out.stdout)
 
 
-LABEL_RE = re.compile(r'//\s*\[([A-Za-z0-9_.\-:#@]+)\]')
+LABEL_RE = re.compile(r'(?://|/\*)\s*\[([A-Za-z0-9_.\-:#@]+)\]')
+LABEL_GROUP_RE = re.compile(r'(?://|/\*)((?:\s*\[[A-Za-z0-9_.\-:#@]+\])+)')
+
+
+def labels_in(text):
+    out = []
+    for mg in LABEL_GROUP_RE.finditer(text):
+        out += re.findall(r'\[([A-Za-z0-9_.\-:#@]+)\]', mg.group(1))
+    return out
+
 
 FIELD_ATTR_DROP = {'serde', 'prost', 'error', 'from', 'returns', 'schemars', 'source'}
 
@@ -175,8 +184,10 @@ def split_top_commas(text):
 
 
 class World:
-    def __init__(self, name, features=()):
+    def __init__(self, name, features=(), force_stub=()):
         self.name = name
+        self.force_stub = set(force_stub)
+        self.degraded = {}
         self.dir = os.path.join(VERIF, 'contracts', name)
         self.cfg = json.load(open(os.path.join(self.dir, 'world.json')))
         self.features = set(features)
@@ -764,8 +775,24 @@ class World:
         if not reach:
             for pname in c.probes:
                 variants.append(('probe', pname))
+        forced = f'{modpath}::{cname}' in self.force_stub
+        if forced and not stub:
+            self.degraded.setdefault(f'{modpath}::{cname}', 'does not type-check in the verified subset')
+            variants = [('main', None)]
         for variant, pname in variants:
-            self._emit_fn_variant(out, src, m, modpath, it, cname, c, variant, pname, stub)
+            mark = out.pos(), len(out.parts), len(self.fnmap)
+            try:
+                self._emit_fn_variant(out, src, m, modpath, it, cname, c, variant, pname, stub or forced)
+            except Inconclusive as e:
+                if stub or forced or 'lost anchor' not in str(e) and 'unsupported' not in str(e):
+                    raise
+                # a per-function anchor is lost: fall back to the assumed contract for this function only
+                del out.parts[mark[1]:]
+                out.n = mark[0]
+                del self.fnmap[mark[2]:]
+                self.degraded[f'{modpath}::{cname}'] = str(e)
+                self._emit_fn_variant(out, src, m, modpath, it, cname, c, 'main', None, True)
+                break
 
     def _emit_fn_variant(self, out, src, m, modpath, it, cname, c, variant, pname, is_stub):
         sig = it['sig']
@@ -832,7 +859,7 @@ class World:
             cur_labels = []
             cur_start = None
             for line in (ens.rstrip().rstrip(',') + ',').split('\n'):
-                found = LABEL_RE.findall(line) if line.strip().startswith('//') else []
+                found = labels_in(line) if line.strip().startswith('//') else []
                 if found:
                     for cl in cur_labels:
                         label_spans.append((cl, cur_start, out.pos()))
@@ -1025,37 +1052,37 @@ class World:
                 n0 = body.count(b'Box::new(')
                 body = body.replace(b'Box::new(', b'DynPred::new(')
                 self.counters['R4'] += n0
-        # labels inside inserted text (loop invariants / hints)
-        inner = []
-        for ml in LABEL_RE.finditer(body.decode()):
-            s = len(body.decode()[:ml.start()].encode())
-            inner.append((ml.group(1), s, None))
-        # extend each inner label to the next label / end of its line block
+        # labels inside inserted text (closure contracts, loop invariants, hints); a comment may
+        # carry several labels; the region runs to the next blank line / next label comment
+        txt = body.decode()
+        marks = []
+        for ml in re.finditer(r'(?://|/\*)((?:\s*\[[A-Za-z0-9_.\-:#@]+\])+)', txt):
+            labs = re.findall(r'\[([A-Za-z0-9_.\-:#@]+)\]', ml.group(1))
+            marks.append((ml.start(), labs))
         res = []
-        for i, (lab, s, _) in enumerate(inner):
-            # region: until the next blank line or next label
-            txt = body.decode()
-            cs = len(body[:s].decode())
+        for i, (cs, labs) in enumerate(marks):
             nxt = txt.find('\n\n', cs)
             e_char = nxt if nxt != -1 else len(txt)
-            if i + 1 < len(inner):
-                e_char = min(e_char, len(body[:inner[i + 1][1]].decode()))
-            res.append((lab, s, len(txt[:e_char].encode())))
+            if i + 1 < len(marks):
+                e_char = min(e_char, marks[i + 1][0])
+            for lab in labs:
+                res.append((lab, len(txt[:cs].encode()), len(txt[:e_char].encode())))
         return body, res
 
 
-def assemble(world_name, features=(), outdir=None):
-    w = World(world_name, features)
+def assemble(world_name, features=(), outdir=None, force_stub=()):
+    w = World(world_name, features, force_stub)
     outdir = outdir or os.path.join(os.environ.get('VERIF_WORK', os.path.join(VERIF, 'work')), world_name + ('-' + '-'.join(sorted(features)) if features else ''))
     os.makedirs(outdir, exist_ok=True)
     main = w.build(reach=False)
     fmap_main = w.fnmap
     counters = dict(w.counters)
-    w2 = World(world_name, features)
+    w2 = World(world_name, features, set(force_stub) | set(w.degraded))
     reach = w2.build(reach=True)
     open(os.path.join(outdir, 'unit.rs'), 'wb').write(main)
     open(os.path.join(outdir, 'unit_reach.rs'), 'wb').write(reach)
     meta = {'world': world_name, 'features': sorted(features), 'fns': fmap_main, 'reach_fns': w2.fnmap,
+            'degraded': w.degraded,
             'counters': counters, 'uncontracted': w.uncontracted, 'stubs': w.stubs, 'lemma_twins': w2.lemma_twins,
             'unit_sha256': sha(main)}
     json.dump(meta, open(os.path.join(outdir, 'map.json'), 'w'), indent=1)
